@@ -59,10 +59,12 @@ def generate(repo: Repo, con: Contract, k=None, only_variant=None) -> Generated:
             ex.top_qual_inline_root = con.qual
             ex.frames.append(_dummy_frame(fi))
             a = con.adapt(ex, env)
+            ex.top_args = a            # entry arguments: recursive calls are measured against them (termination obligations)
             pre = [c for _, c in con.pre(ex, a)]
             rconds = con.raises(ex, a)
             ex.frames.pop()
             base = wf + pre
+            ex.entry_hyps = list(base)
             ex.pc = list(base)
             outcomes = ex.explore(lambda: ex.inline(fi, [], dict(env)), base_pc=base)
             vtag = "" if len(con.variants()) == 1 else f"[{_variant_tag(variant)}]"
